@@ -66,6 +66,13 @@ def rule_r1(chk, p, t):
         except AnchorError:
             continue
         fns += list(cls.methods.values())
+    # the multiple-model filters compile innovations from their models: same discipline
+    try:
+        af = p.cls("resonaate.estimation.adaptive.adaptive_filter.AdaptiveFilter")
+        for c in [af] + list(p.subclasses(af)):
+            fns += [m for m in c.methods.values() if m not in fns]
+    except AnchorError:
+        pass
     n_res = 0
     for fn in fns:
         defs = single_defs(fn.node)
